@@ -372,6 +372,41 @@ void fixComponentUnits(const ModelPtr &model, const ComponentPtr &component)
     }
 }
 
+using ImportSourceMap = std::map<ImportSourcePtr, ImportSourcePtr>;
+
+/**
+ * Imported entities that share an import source in the original share one import source in the clone.
+ */
+void unifyClonedImportSource(const ImportedEntityConstPtr &original, const ImportedEntityPtr &clone, ImportSourceMap &importSourceMap)
+{
+    if (original->isImport()) {
+        auto result = importSourceMap.find(original->importSource());
+        if (result == importSourceMap.end()) {
+            importSourceMap.emplace(original->importSource(), clone->importSource());
+        } else {
+            clone->setImportSource(result->second);
+        }
+    }
+}
+
+void unifyClonedImportSources(const ComponentConstPtr &original, const ComponentPtr &clone, ImportSourceMap &importSourceMap)
+{
+    unifyClonedImportSource(original, clone, importSourceMap);
+    for (size_t index = 0; index < original->componentCount(); ++index) {
+        unifyClonedImportSources(original->component(index), clone->component(index), importSourceMap);
+    }
+}
+
+VariablePtr variableLocatedAt(const IndexStack &stack, const ComponentEntityConstPtr &model)
+{
+    ComponentPtr component = model->component(stack.front());
+    for (size_t index = 1; index + 1 < stack.size(); ++index) {
+        component = component->component(stack.at(index));
+    }
+
+    return component->variable(stack.back());
+}
+
 ModelPtr Model::clone() const
 {
     auto m = create();
@@ -393,6 +428,14 @@ ModelPtr Model::clone() const
         fixComponentUnits(m, m->component(index));
     }
 
+    ImportSourceMap importSourceMap;
+    for (size_t index = 0; index < pFunc()->mUnits.size(); ++index) {
+        unifyClonedImportSource(units(index), m->units(index), importSourceMap);
+    }
+    for (size_t index = 0; index < componentCount(); ++index) {
+        unifyClonedImportSources(component(index), m->component(index), importSourceMap);
+    }
+
     // Generate equivalence map starting from the models components.
     EquivalenceMap map;
     IndexStack indexStack;
@@ -404,6 +447,25 @@ ModelPtr Model::clone() const
         indexStack.pop_back();
     }
     applyEquivalenceMapToModel(map, m);
+
+    // Carry the mapping and connection identifiers of the equivalences over to the clone.
+    auto thisModel = shared_from_this();
+    for (const auto &entry : map) {
+        for (const auto &stack : entry.second) {
+            auto v1 = variableLocatedAt(entry.first, thisModel);
+            auto v2 = variableLocatedAt(stack, thisModel);
+            auto v1Clone = variableLocatedAt(entry.first, m);
+            auto v2Clone = variableLocatedAt(stack, m);
+            auto mappingId = Variable::equivalenceMappingId(v1, v2);
+            if (!mappingId.empty()) {
+                Variable::setEquivalenceMappingId(v1Clone, v2Clone, mappingId);
+            }
+            auto connectionId = Variable::equivalenceConnectionId(v1, v2);
+            if (!connectionId.empty()) {
+                Variable::setEquivalenceConnectionId(v1Clone, v2Clone, connectionId);
+            }
+        }
+    }
 
     return m;
 }
